@@ -13,33 +13,48 @@ TARGETS = ['C15/Props.vo', 'C15/Corr.vo']
 MODEL_TARGETS = ['C15/Corr.vo']
 PROPS_FILE = 'C15/Props.v'
 PROPS_MODULE = 'QV.C15.Props'
-CORR_IMPORTS = ['QV.C15.Model', 'QV.C15.Spec', 'QV.C15.ModelQ', 'QV.C15.Corr']
+CORR_IMPORTS = ['QV.C15.Model', 'QV.C15.Spec', 'QV.C15.ModelQ', 'QV.C15.ModelMC', 'QV.C15.Corr']
 CHECK_CORR = 'check_corr'
 CHECK_SPEC = 'check_spec'
 SHARD = 60
 RULE = ('templates: random trees over atoms (5 distinct waveforms), sequences, repetitions whose count is an integer '
         'polynomial over 1-2 parameters (x, x*y, 2*x+1, x*y-y+1 ...), optionally with a measurement, and parameter '
-        'mappings (renaming / multiplying / shadowing) ; every subset choice of volatile parameters incl. none/all; '
+        'mappings (renaming / multiplying / shadowing / self-referential, 35 % of them NAMED so that the MappedScopes '
+        'stack instead of being merged at construction); every subset choice of volatile parameters incl. none/all; '
         '1-3 successive updates (values 0..4 on purpose incl. 0 and 1, rarely negative; malformed stream: updates of '
-        'non-volatile or unknown names, missing parameters).  Pipelines: none / cleanup / flatten_and_balance(0..3) / '
-        'TaborProgram (mode None|SINGLE|ADVANCED, min_seq_len 1..4, max_seq_len 3..8, optional cleanup first).  '
-        'Plus a stream of single volatile counts updated with dyadic non-integer values (instantiation raises, update '
-        'rounds) and a make_compatible stream (minimal waveform length 192/384/576, Python oracle on sampled '
-        'play-back).  Thorough adds exhaustive enumeration of all templates with <= 3 composite nodes (4 composite '
-        'nodes over a further reduced alphabet) x all volatile subsets.  Non-trivial = some repetition count is '
-        'volatile and some update changes its value.')
+        'non-volatile or unknown names, missing parameters); 25 % of the cases hand the update values over as '
+        'numpy.int64/int32, float, numpy.float64 or TimeType; 25 % build the template once with structurally equal '
+        'sub-templates as the SAME object and re-use it for every fresh instantiation.  Pipelines: none / cleanup / '
+        'flatten_and_balance(0..3) / TaborProgram (mode None|SINGLE|ADVANCED, min_seq_len 1..4, max_seq_len 3..8, '
+        'optional cleanup first).  Six deterministic boundary families (the same shapes for every seed, x pipelines): '
+        'zero_mid (parameter updated to 0 in the middle of a sequence while the count n+2 / 2n+1 / (m+1)*n / mapped '
+        'offset stays positive), vol_neighbour_one (Tabor: volatile table whose count is exactly 1 or 2 at '
+        'instantiation next to a fixed table shorter than min_seq_len, on either / both sides; volatile root), '
+        'named_maps (count reaches the volatile parameter through 2-3 stacked MappedScopes, same name rebound on '
+        'both levels), shared_before (Tabor: de-duplicated identical sequencer tables before the table with the '
+        'volatile entry, the volatile table itself repeated), same_param_twice (one volatile parameter in sibling / '
+        'nested counts, swap mapping {n: m, m: n}, n -> 2*n), internal_names (template parameters called '
+        'parent_repetition_count / child_repetition_count).  Plus a stream of single volatile counts updated with '
+        'dyadic non-integer values and a make_compatible stream (atoms of 96/192/384/576 samples, minimal waveform '
+        'length 96..576, quantum 16/32/64/192; modelled in Coq).  Thorough adds the full pipeline grids of the '
+        'families and the exhaustive enumeration of all templates with <= 3 composite nodes (4 composite nodes over a '
+        'further reduced alphabet) x all volatile subsets.  Non-trivial = some repetition count is volatile and some '
+        'update changes its value.')
 TRUSTED = [
     'Coq 8.16.1 kernel + vm_compute',
     'sympy: parsing/evaluation of the integer polynomial count expressions and its structural equality (used by the '
     'de-duplication of sequencer tables; the model compares polynomial normal forms, exact on the generated class)',
     'harness: generators, observation of Loop trees / Tabor tables through repetition_count, volatile_repetition, '
     'get_sequencer_tables, get_advanced_sequencer_table, _parsed_program.volatile_parameter_positions',
-    'waveform sampling/quantisation is not part of this property (all atoms are 192-sample constant waveforms)',
+    'waveform sampling/quantisation is not part of this property (atoms are constant waveforms of 192 samples; in the '
+    'make_compatible stream 96/192/384/576 samples, a concatenated waveform is read back as the list of atoms it plays)',
 ]
 ASSUMPTIONS = [
     'count expressions are integer polynomials; non-integer parameter values only in the separate rational stream '
     '(dyadic values; the 1e-6 tolerance of checked_int_cast is outside the model)',
     'counts <= 64 (model bound for unrolling); measurements are modelled as a has-measurement flag only',
+    'make_compatible: sample rate 1 and integer atom lengths (incompatible_fraction does not occur); to_waveform of a '
+    'count-0 loop is outside the generated class (such loops are dropped at instantiation)',
     'the instrument upload path (hardware/awgs/tabor.py) is not importable offline and not covered',
 ]
 
@@ -49,6 +64,7 @@ NAME_ID['parent_repetition_count'] = 1000001
 NAME_ID['child_repetition_count'] = 1000002
 N_ATOMS = 5
 AMPS = [i / 8 for i in range(N_ATOMS)]
+CDUR = [192, 384, 96, 192, 576]      # atom lengths of the make_compatible stream (= AL in Corr.v)
 
 
 # ---------------------------------------------------------------------------------------------------------------------
@@ -237,6 +253,40 @@ def ref_negative_chain(p, sigma, delta, above=False):
     mp = dict((n, e) for n, e in p[1])
     return ref_negative_chain(p[2], lambda x: e_eval(mp[x], sigma) if x in mp else sigma(x),
                               lambda x: any(delta(y) for y in e_vars(mp[x])) if x in mp else delta(x), above)
+
+
+def ref_mc_bakes(root, mn, q):
+    """reference walk of make_compatible on a ref_inst tree (count, volatile?, children | atom): does it concatenate
+    the children of a node that has a volatile count strictly below it?"""
+    def dur(nd):
+        c, _, ks = nd
+        return c * (CDUR[ks] if isinstance(ks, int) else sum(dur(k) for k in ks))
+
+    def level(nd):
+        d = dur(nd)
+        if d < mn:
+            return 'short'
+        if d % q:
+            return 'quantum'
+        ks = nd[2]
+        if isinstance(ks, int):
+            return 'action' if CDUR[ks] < mn or CDUR[ks] % q else 'compatible'
+        return 'compatible' if all(level(k) == 'compatible' for k in ks) else 'action'
+
+    def vol_below(nd):
+        ks = nd[2]
+        return False if isinstance(ks, int) else any(k[1] or vol_below(k) for k in ks)
+
+    def walk(nd):
+        ks = nd[2]
+        if isinstance(ks, int):
+            return False
+        lv = [level(k) for k in ks]
+        if any(x in ('short', 'quantum') for x in lv):
+            return vol_below(nd)
+        return any(walk(k) for k, x in zip(ks, lv) if x == 'action')
+
+    return level(root) == 'action' and walk(root)
 
 
 def env_fn(vals):
@@ -554,6 +604,31 @@ def family_cases(rng, tier):
     return cases
 
 
+def compat_family(tier):
+    """make_compatible: fixed shapes around a volatile count (kept next to a concatenated sibling; inside a concatenated
+    sub-program; on the loop whose children are concatenated; nested volatile counts) x minimal length x quantum"""
+    n, m = V_('n'), V_('m')
+    shapes = [
+        (R_(C_(3), R_(n, A_(0))), {'n': 1}, ['n'], [{'n': 2}]),
+        (S_(R_(n, A_(1)), R_(C_(1), S_(A_(0), A_(3)))), {'n': 1}, ['n'], [{'n': 3}, {'n': 1}]),
+        (R_(n, S_(A_(2), A_(2))), {'n': 2}, ['n'], [{'n': 3}]),
+        (R_(C_(2), S_(R_(n, A_(2)), A_(2), A_(0))), {'n': 1}, ['n'], [{'n': 3}]),
+        (S_(R_(n, A_(4)), A_(0)), {'n': 1}, ['n'], [{'n': 2}]),
+        (S_(R_(n, A_(4)), R_(C_(2), A_(0)), A_(1)), {'n': 1}, ['n'], [{'n': 2}, {'n': 4}]),
+        (R_(n, R_(m, A_(1))), {'n': 1, 'm': 2}, ['n', 'm'], [{'n': 2}, {'m': 1}]),
+        (S_(R_(n, R_(C_(2), A_(0))), R_(C_(3), A_(2))), {'n': 2}, ['n'], [{'n': 1}, {'n': 3}]),
+        (R_(C_(2), S_(R_(n, S_(A_(1), A_(3))), R_(C_(1), S_(A_(2), A_(2))))), {'n': 1}, ['n'], [{'n': 2}]),
+    ]
+    grid = [(mn, q) for mn in (96, 192, 384, 576) for q in (16, 64, 192)]
+    out = []
+    for i, (pt, vals, V, ups) in enumerate(shapes):
+        pick = grid if tier == 'thorough' else [g for j, g in enumerate(grid) if (i + j) % 3 == 0 or g == (576, 16) or g == (384, 16)]
+        for mn, q in pick:
+            out.append({'kind': 'compat', 'pt': pt, 'vals': dict(vals), 'V': list(V), 'ups': ups, 'min_len': mn, 'q': q,
+                        'fam': 'compat_shapes'})
+    return out
+
+
 FRAC_VALUES = ['1/2', '3/2', '5/2', '7/2', '-1/2', '-3/2', '5/4', '11/4', '2', '3', '1', '0', '4']
 
 
@@ -612,11 +687,13 @@ def gen_cases(rng, tier, ctx):
         cases.append(gen_one(rng, 'tabor', rng.choice([2, 3, 3, 4])))
     for i in range(60 if tier == 'quick' else 600):
         cases.append(gen_frac(rng))
+    cases.extend(compat_family(tier))
     for i in range(120 if tier == 'quick' else 1500):
         c = gen_one(rng, 'tree', rng.choice([2, 3, 3]))
         c['kind'] = 'compat'
         del c['pl']
-        c['min_len'] = rng.choice([192, 384, 384, 576])
+        c['min_len'] = rng.choice([96, 192, 384, 384, 576])
+        c['q'] = rng.choice([16, 16, 32, 64, 192])
         cases.append(c)
     if tier == 'thorough':
         seen = set()
@@ -650,6 +727,17 @@ _SEG_VALUE = None
 EVENTS = []
 
 
+_CATOMS = None
+
+
+def _catoms():
+    global _CATOMS
+    if _CATOMS is None:
+        from qupulse.pulses import ConstantPT
+        _CATOMS = [ConstantPT(CDUR[i], {'A': AMPS[i]}) for i in range(N_ATOMS)]
+    return _CATOMS
+
+
 def _atoms():
     global _ATOMS
     if _ATOMS is None:
@@ -661,27 +749,27 @@ def _atoms():
 _UID = [0]
 
 
-def build_pt(p, memo=None):
+def build_pt(p, memo=None, atoms=None):
     """memo (a dict) switches aliasing on: structurally identical sub-templates become the SAME template object"""
     from qupulse.pulses import SequencePT, RepetitionPT, MappingPT
     k = p[0]
     if k == 'atom':
-        return _atoms()[p[1]]
+        return (atoms or _atoms())[p[1]]
     key = None
     if memo is not None:
         key = vlib.canonical_hash(p)
         if key in memo:
             return memo[key]
     if k == 'seq':
-        r = SequencePT(*[build_pt(q, memo) for q in p[1]])
+        r = SequencePT(*[build_pt(q, memo, atoms) for q in p[1]])
     elif k == 'rep':
-        r = RepetitionPT(build_pt(p[3], memo), e_str(p[1]), measurements=[('M', 0, 1)] if p[2] else None)
+        r = RepetitionPT(build_pt(p[3], memo, atoms), e_str(p[1]), measurements=[('M', 0, 1)] if p[2] else None)
     else:
         ident = None
         if len(p) > 3 and p[3]:
             _UID[0] += 1
             ident = 'c15_map_%d' % _UID[0]
-        r = MappingPT(build_pt(p[2], memo), parameter_mapping={n: e_str(e) for n, e in p[1]},
+        r = MappingPT(build_pt(p[2], memo, atoms), parameter_mapping={n: e_str(e) for n, e in p[1]},
                       allow_partial_parameter_mapping=True, identifier=ident)
     if memo is not None:
         memo[key] = r
@@ -913,10 +1001,35 @@ def _play(loop, out, budget):
             raise RuntimeError('play-back too long')
 
 
+def _wf_atoms(wf):
+    """the atoms a (concatenated) waveform plays, read off its samples (amplitude identifies the atom)"""
+    import numpy as np
+    d = int(wf.duration)
+    smp = wf.get_sampled('A', np.arange(d, dtype=float))
+    runs = []
+    for v in smp:
+        a = AMPS.index(float(v))
+        if runs and runs[-1][0] == a:
+            runs[-1][1] += 1
+        else:
+            runs.append([a, 1])
+    out = []
+    for a, n in runs:
+        if n % CDUR[a]:
+            raise RuntimeError('run of %d samples of atom %d' % (n, a))
+        out += [a] * (n // CDUR[a])
+    return out
+
+
+def obs_ctree(loop):
+    return {'c': int(loop.repetition_count), 'vol': loop.volatile_repetition is not None,
+            'wf': None if loop.waveform is None else _wf_atoms(loop.waveform), 'ch': [obs_ctree(c) for c in loop]}
+
+
 def _compat_pipeline(case, vals):
     from qupulse.program.loop import VolatileModificationWarning, make_compatible
     from qupulse.utils.types import TimeType
-    pt = build_pt(case['pt'])
+    pt = build_pt(case['pt'], None, _catoms())
     with warnings.catch_warnings(record=True) as ws:
         warnings.simplefilter('always')
         try:
@@ -924,11 +1037,11 @@ def _compat_pipeline(case, vals):
             if prog is None:
                 return {'none': True}, None
             nvol = _n_vol(prog)
-            make_compatible(prog, case['min_len'], 16, TimeType.from_fraction(1, 1))
+            make_compatible(prog, case['min_len'], case.get('q', 16), TimeType.from_fraction(1, 1))
         except _expected() + (ValueError,):
             return {'err': True}, None
     warn = any(issubclass(w.category, VolatileModificationWarning) for w in ws)
-    return {'ok': True, 'warn': warn, 'nvol_before': nvol, 'nvol_after': _n_vol(prog)}, prog
+    return {'ok': True, 'warn': warn, 'nvol_before': nvol, 'nvol_after': _n_vol(prog), 'tree': obs_ctree(prog)}, prog
 
 
 def _has_vol_loop(loop):
@@ -950,20 +1063,21 @@ def _run_compat(case):
         for k, v in us.items():
             if k in cur:
                 cur[k] = v
-        if prog is None:
-            break
-        _update_tree(prog, us)
         f, fprog = _compat_pipeline(case, cur)
-        st = {'fresh': 'ok' if fprog is not None else ('none' if 'none' in f else 'err')}
-        a = []
-        _play(prog, a, [4000])
-        if fprog is not None:
-            b = []
-            _play(fprog, b, [4000])
-            st['same'] = a == b
-            st['fresh_warn'] = f['warn']
-        else:
-            st['silent'] = not a
+        st = {'fresh': 'ok' if fprog is not None else ('none' if 'none' in f else 'err'),
+              'ftree': f.get('tree'), 'fwarn': f.get('warn', False)}
+        if prog is not None:
+            _update_tree(prog, us)
+            st['tree'] = obs_ctree(prog)
+            a = []
+            _play(prog, a, [4000])
+            if fprog is not None:
+                b = []
+                _play(fprog, b, [4000])
+                st['same'] = a == b
+                st['fresh_warn'] = f['warn']
+            else:
+                st['silent'] = not a
         steps.append(st)
     return {'before': before, 'steps': steps}
 
@@ -979,6 +1093,8 @@ def py_spec(case, obs):
     if not set().union(*[set(us) for us in case['ups']]) <= set(case['V']):
         return None
     for i, st in enumerate(obs['steps']):
+        if 'tree' not in st:
+            continue
         if st['fresh'] == 'ok' and not st['fresh_warn'] and not st['same']:
             return 'make_compatible without VolatileModificationWarning, update %d: updated program plays something else than a fresh instantiation' % i
         if st['fresh'] == 'none' and not st['silent']:
@@ -1045,6 +1161,11 @@ def g_otree(t):
     return '(ONode %s %s %s %s)' % (gZ(t['c']), vol, wf, glist(g_otree, t['ch']))
 
 
+def g_cotree(t):
+    wf = 'None' if t['wf'] is None else '(Some %s)' % glist(lambda i: '%d%%N' % i, t['wf'])
+    return '(CO %s %s %s %s)' % (gZ(t['c']), gbool(t['vol']), wf, glist(g_cotree, t['ch']))
+
+
 def g_tobs(o):
     if 'err' in o:
         return 'TErr'
@@ -1076,7 +1197,18 @@ def to_coq(case, obs):
     if 'crash' in obs or 'hang' in obs:
         return 'CCrash'
     if case['kind'] == 'compat':
-        return 'CSpecOnly'
+        if 'before' not in obs:
+            return 'CCrash'
+        b = obs['before']
+        gb = 'CoErr' if 'err' in b else 'CoNone' if 'none' in b else '(CoTree %s %s)' % (g_cotree(b['tree']), gbool(b['warn']))
+        fr = []
+        for st in obs['steps']:
+            fr.append('CoErr' if st['fresh'] == 'err' else 'CoNone' if st['fresh'] == 'none' else
+                      '(CoTree %s %s)' % (g_cotree(st['ftree']), gbool(st['fwarn'])))
+        return '(CCompat %s %s %s %s %s %s %s %s %s)' % (
+            pt_coq(case['pt']), g_kv(case['vals']), g_names(case['V']), gZ(case['min_len']), gZ(case.get('q', 16)),
+            glist(g_kv, case['ups']), gb,
+            glist(lambda st: g_cotree(st['tree']), [st for st in obs['steps'] if 'tree' in st]), glist(lambda x: x, fr))
     if case['kind'] == 'frac':
         gq = lambda kv: '(%d%%N, %s)' % (NAME_ID[kv[0]], vlib.gQ(vlib.frac_parse(kv[1]) if isinstance(kv[1], str) else kv[1]))
         return '(CFrac %s %s %s %s %s)' % (
@@ -1148,6 +1280,9 @@ def histogram_keys(case, obs):
     if case['kind'] == 'compat':
         b = obs.get('before', {})
         keys.append('compat:min_len=%d' % case['min_len'])
+        keys.append('compat:quantum=%d' % case.get('q', 16))
+        if case.get('fam'):
+            keys.append('family:' + case['fam'])
         keys.append('compat:' + ('err' if 'err' in b else 'none' if 'none' in b else 'warn' if b.get('warn') else
                                  'volatile_kept' if b.get('vol_left') else 'no_volatile_left'))
         if nontrivial(case, obs):
@@ -1191,9 +1326,17 @@ def classify(case, obs):
     """id of the known finding a failing case belongs to (precise predicates on the input / recorded call sites)"""
     if case['kind'] == 'compat':
         b = obs.get('before', {})
-        # volatile loops vanished into a concatenated waveform and no VolatileModificationWarning was emitted
+        # volatile loops vanished into a concatenated waveform and no VolatileModificationWarning was emitted, and an
+        # independent walk of the documented algorithm says: a node whose children are concatenated has a volatile
+        # count strictly below it (a volatile count that vanishes in any other way is not this finding)
         if 'ok' in b and not b['warn'] and b['nvol_after'] < b['nvol_before']:
-            return 'C15-make-compatible-bakes-volatile-child'
+            try:
+                V0 = set(case['V'])
+                nodes = ref_inst(case['pt'], env_fn(dict(case['vals'])), lambda x: x in V0)
+                if ref_mc_bakes((1, False, nodes), case['min_len'], case.get('q', 16)):
+                    return 'C15-make-compatible-bakes-volatile-child'
+            except KeyError:
+                pass
         V = set(case['V'])
         try:
             if ref_dropped_volatile(case['pt'], env_fn(dict(case['vals'])), lambda x: x in V):
@@ -1248,6 +1391,115 @@ def classify(case, obs):
     return None
 
 
+# ---------------------------------------------------------------------------------------------------------------------
+def _one_step_reductions(case):
+    out = []
+    ups = case.get('ups', [])
+    for i in range(len(ups)):
+        if len(ups) > 1:
+            out.append(dict(case, ups=ups[:i] + ups[i + 1:]))
+        if isinstance(ups[i], dict) and len(ups[i]) > 1:
+            for k in ups[i]:
+                out.append(dict(case, ups=ups[:i] + [{a: b for a, b in ups[i].items() if a != k}] + ups[i + 1:]))
+    for flag in ('alias', 'vt'):
+        if case.get(flag) not in (None, False, 'int'):
+            out.append({k: v for k, v in case.items() if k != flag})
+    if 'pt' in case:
+        def subs(p):
+            k = p[0]
+            res = []
+            if k == 'seq':
+                res += list(p[1])
+                if len(p[1]) > 2:
+                    res += [['seq', p[1][:i] + p[1][i + 1:]] for i in range(len(p[1]))]
+                for i, q in enumerate(p[1]):
+                    res += [['seq', p[1][:i] + [v] + p[1][i + 1:]] for v in subs(q)]
+            elif k == 'rep':
+                res.append(p[3])
+                res += [['rep', p[1], p[2], v] for v in subs(p[3])]
+                if p[2]:
+                    res.append(['rep', p[1], False, p[3]])
+            elif k == 'map':
+                res += [['map', p[1], v] + p[3:] for v in subs(p[2])]
+                if len(p) > 3 and p[3]:
+                    res.append(['map', p[1], p[2]])
+            return res
+        for v in subs(case['pt']):
+            if v[0] == 'atom':
+                continue
+            fr = pt_free(v)
+            if not fr <= set(case['vals']) | {k for us in ups if isinstance(us, dict) for k in us}:
+                continue
+            out.append(dict(case, pt=v, V=[x for x in case['V'] if x in fr] or case['V']))
+    return out
+
+
+def shrink(case, obs, ctx):
+    """greedy shrinking of a case on which the specification fails: every round runs all one-step reductions (fewer
+    updates, smaller template, no aliasing / plain ints) on the implementation and lets the Coq specification (and
+    py_spec) judge them in one coqc call; a reduction is kept only if it fails with the same classification"""
+    if case.get('kind') not in ('tree', 'tabor', 'compat'):
+        return case, obs
+    wd = os.path.join(ctx['workdir'], 'shrink')
+    want = classify(case, obs)
+    for _ in range(8):
+        cands = _one_step_reductions(case)[:60]
+        if not cands:
+            break
+        cobs = [run_impl(c) for c in cands]
+        try:
+            res = vlib.run_coq_cases(wd, CORR_IMPORTS, [CHECK_SPEC], [to_coq(c, o) for c, o in zip(cands, cobs)],
+                                     case_type='case', shard=SHARD, prelude='')
+        except Exception:
+            break
+        bad = set(res[CHECK_SPEC]) | {i for i, (c, o) in enumerate(zip(cands, cobs)) if py_spec(c, o)}
+        pick = [i for i in sorted(bad) if 'crash' not in cobs[i] and 'hang' not in cobs[i] and classify(cands[i], cobs[i]) == want]
+        if not pick:
+            break
+        case, obs = cands[pick[0]], cobs[pick[0]]
+    return case, obs
+
+
+def search_failing(ctx, broken):
+    """model and implementation disagree on ctx['near'] while the specification accepts the observation there: look
+    for an input close to it (more / other update values incl. 0 and 1, every volatile name, the other pipelines) on
+    which the property itself fails (specification oracle on the implementation; known findings are skipped)"""
+    near = ctx.get('near')
+    if not near or near.get('kind') not in ('tree', 'tabor', 'compat') or 'pt' not in near:
+        return None
+    names = sorted(set(near.get('V', [])) & set(near.get('vals', {}))) or sorted(near.get('vals', {}))
+    seqs = []
+    for v in names:
+        seqs += [[{v: 0}], [{v: 1}], [{v: 3}], [{v: 2}, {v: 0}, {v: 2}], [{v: 4}, {v: 1}]]
+    if len(names) > 1:
+        seqs.append([{v: 2 for v in names}, {v: 1 for v in names}])
+    cands = []
+    for sq in seqs:
+        for ups in (near['ups'] + sq, sq):
+            base = dict(near, ups=ups, V=sorted(set(near.get('V', [])) | set(names)))
+            if not sizes_ok(base['pt'], base['vals'], set(base['V']), ups):
+                continue
+            cands.append(base)
+            if near['kind'] == 'tree':
+                cands += [dict(base, pl=pl) for pl in ('none', 'cleanup', 'flat2') if pl != near.get('pl')]
+            elif near['kind'] == 'tabor':
+                cands += [dict(base, cl=not near.get('cl', False))]
+    cands = cands[:90]
+    if not cands:
+        return None
+    cobs = [run_impl(c) for c in cands]
+    try:
+        res = vlib.run_coq_cases(os.path.join(ctx['workdir'], 'search'), CORR_IMPORTS, [CHECK_SPEC],
+                                 [to_coq(c, o) for c, o in zip(cands, cobs)], case_type='case', shard=SHARD, prelude='')
+    except Exception:
+        return None
+    bad = sorted(set(res[CHECK_SPEC]) | {i for i, (c, o) in enumerate(zip(cands, cobs)) if py_spec(c, o)})
+    for i in bad:
+        if classify(cands[i], cobs[i]) is None:
+            return cands[i], cobs[i], 'specification oracle (check_spec) rejects the implementation on an input next to the disagreeing one'
+    return None
+
+
 MANIFEST = {
     'level_text': 'Proof (Coq, unbounded in template shape, mappings, volatile set and update history) for the model of '
                   'instantiation / update / merge / cleanup on program trees: a count is marked volatile iff it depends '
@@ -1257,16 +1509,24 @@ MANIFEST = {
                   'decisions.  TaborProgram.update_volatile_parameters: proved in full at the level of table cells '
                   '(every recorded position holds the new count, nothing else changes, the returned map is exactly the '
                   'set of changed entries) under the guard that positions sharing a cell agree on the new value '
-                  '(refuted without it: known finding shared table).  Not proved: the parser step of "tables after '
-                  'update = tables of a fresh compilation" (executable specification, checked on every generated '
-                  'Tabor case against the real TaborProgram).  Non-integer values: rational side model, the integer '
-                  'model is proved to be its restriction.  make_compatible: not modelled, Python-side oracle only.',
+                  '(refuted without it: known finding shared table).  New in round 3: the parser step is proved '
+                  '(C15_tabor_recompile: parse of the updated tables with the same table sharing = update of the parse; '
+                  'the shared-table guard is a consequence of equal sharing) and composed end to end '
+                  '(C15_tabor_compile_commutes: TaborProgram of the updated program = update_volatile_parameters on '
+                  'TaborProgram of the program, single and advanced mode, under no warning + same decisions + same '
+                  'sharing; refuted without the sharing hypothesis).  make_compatible is modelled in Coq '
+                  '(_is_compatible, _make_compatible, to_waveform; the code as it is and with the prepared repair) and '
+                  'proved to commute with updates under same decisions + "no volatile count inside a concatenated '
+                  'waveform" (refuted without: known finding; with the repair the guard is "no warning").  '
+                  'Non-integer values: rational side model, the integer model is proved to be its restriction.',
     'level_note': 'Trusted: Coq kernel, sympy (expression evaluation / structural equality), harness observation of '
-                  'Loop trees and Tabor tables, exact dyadic floats.  The decision list of prepare/tabor_compile is a '
-                  'ghost output of the model (the code has none); the commutation theorem is conditional on equal '
-                  'decision lists, an input-level sufficient condition is not proved.  5 known findings (zero count '
-                  'dropped, merged negative product, shared volatile table, non-integer update rounds, make_compatible '
-                  'bakes a volatile child) ; 4 Tabor defects repaired in this round.',
+                  'Loop trees and Tabor tables, exact dyadic floats.  The decision lists of prepare/tabor_compile/'
+                  'make_compatible are ghost outputs of the model (the code has none); the commutation theorems are '
+                  'conditional on equal decision lists; the only input-level sufficient condition proved is "all '
+                  'sequence tables already have a valid length" (C15_prepare_decisions_long_tables).  5 known findings '
+                  '(zero count dropped, merged negative product, shared volatile table, non-integer update rounds, '
+                  'make_compatible bakes a volatile child without warning: repair prepared, not landed because C06 '
+                  'observes the warning flag); 4 Tabor defects repaired in round 2.',
     'technique': 'Coq proof over a hand-written model + exact correspondence check against qupulse',
     'design_ref': 'DESIGN.md §5 C15',
 }
